@@ -352,6 +352,15 @@ func (rc *runCtx) runProgram(w http.ResponseWriter) {
 			n, err := res.ReadFrom(&io.LimitedReader{R: rc.env.File, N: int64(op.N)})
 			or.N, or.Err = n, errStr(err)
 			off += op.N
+		case OpOW:
+			n, err := res.Write(Pat[off : off+op.N])
+			or.N, or.Err = int64(n), errStr(err)
+		case OpOWS:
+			n, err := res.WriteString(PatStr[off : off+op.N])
+			or.N, or.Err = int64(n), errStr(err)
+		case OpORF:
+			n, err := res.ReadFrom(bytes.NewReader(Pat[off : off+op.N]))
+			or.N, or.Err = n, errStr(err)
 		case OpRFX:
 			if _, err := rc.env.File.Seek(int64(op.Off), io.SeekStart); err != nil {
 				panic("verif harness: seek: " + err.Error())
